@@ -1,0 +1,26 @@
+//go:build verif
+
+package types
+
+import "sync/atomic"
+
+// Verification hook H2 (build tag verif): logical step counter for the Newton iteration in
+// BigDec.ApproxRoot, so that termination can be judged on iterations instead of wall-clock time.
+var verifApproxRootIters int64
+
+// VerifApproxRootLimit, when > 0, makes ApproxRoot panic once the process-wide counter exceeds it
+// (recovered by ApproxRoot's own deferred recover into an error), so a runaway loop ends.
+var VerifApproxRootLimit int64
+
+func verifApproxRootIter() {
+	n := atomic.AddInt64(&verifApproxRootIters, 1)
+	if l := atomic.LoadInt64(&VerifApproxRootLimit); l > 0 && n > l {
+		panic("verif: ApproxRoot iteration limit exceeded")
+	}
+}
+
+// VerifApproxRootIters returns the number of Newton iterations executed so far in this process.
+func VerifApproxRootIters() int64 { return atomic.LoadInt64(&verifApproxRootIters) }
+
+// VerifResetApproxRootIters zeroes the counter.
+func VerifResetApproxRootIters() { atomic.StoreInt64(&verifApproxRootIters, 0) }
